@@ -290,7 +290,7 @@ func interfereNGAP() {
 
 func TestC04_RoundTrip(t *testing.T) {
 	r := ev.New(t, "C04", "TestC04_RoundTrip")
-	ev.Run(t, r, func(rt *rapid.T) ngapCase { return genNgapCase(rt, false) }, c04Oracle)
+	ev.Run(t, r, func(rt *rapid.T) ngapCase { return genNgapCase(rt, false) }, func(c ngapCase) ev.Verdict { return withLog(c, c04Oracle) })
 }
 
 // TestC04_Sweep: the constraint sweep of C03, decoded: every distinct constraint of the
